@@ -46,6 +46,30 @@ expect("TraceWin: delivery event dropped", verdict(win.SPEC, "TraceWin", e4), Tr
 e5 = copy.deepcopy(ev); i = [k for k, e in enumerate(e5) if e["e"] == "deliver"][0]; e5.insert(2, e5.pop(i))
 expect("TraceWin: delivery moved before the row that advances the watermark", verdict(win.SPEC, "TraceWin", e5), True)
 
+# 1b. state binding of the code-shaped model (TraceTumblingImpl): a forced replay binds; one corrupted hook field, one removed hook
+# event followed by a wrong delivery, and the model run with another constant (Reanchor = FALSE where the replay re-anchors) drift
+def impl(events, consts="Size = 2 MOO = 1 AL = 0 MaxTs = 99 MaxEv = 12 ChanCap = 100 Reanchor = TRUE Emit = FALSE Dev = {}"):
+    tp = os.path.join(vlib.scratch(), "st_impl.ndjson")
+    open(tp, "w").write("\n".join(json.dumps(e) for e in events) + "\n")
+    cfg = "SPECIFICATION Spec0\nCONSTANTS %s\nPOSTCONDITION AllConsumed\nCHECK_DEADLOCK FALSE\n" % consts
+    r = vlib.tlc(win.SPEC, "TraceTumblingImpl", cfg, env={"TRACE_FILE": tp}, workers=1, timeout=300)
+    assert r["ok"], r["out"][-1500:]
+    return [x[3] for x in vlib.prints(r["out"], "DRIFT")], len(vlib.prints(r["out"], "BOUND"))
+sc = {"tr": 1, "cfg": {"kind": "tumbling", "size": 2, "slide": 0, "moo": 1, "al": 0, "unit": 1000, "groups": 1, "base": 0, "ahead": False},
+      "steps": [{"a": "add", "id": 1, "ts": 4}, {"a": "add", "id": 2, "ts": 3}, {"a": "add", "id": 3, "ts": 7}, {"a": "trig"}, {"a": "trig"}, {"a": "send"}, {"a": "send"}], "free": False}
+ev = run("win", sc)
+d, b = impl(ev)
+expect("TraceTumblingImpl: forced replay (state after every step = the model's)", d if b == 1 else ["not bound"], False)
+e2 = copy.deepcopy(ev)
+for e in e2:
+    if e["e"] == "h.add" and e["n"] > 1: e["n"] -= 1; break
+expect("TraceTumblingImpl: buffered-row count of one hook event off by one", impl(e2)[0], True)
+e3 = copy.deepcopy(ev)
+for e in e3:
+    if e["e"] == "deliver": e["rows"][0]["ids"] = e["rows"][0]["ids"][:-1]; break
+expect("TraceTumblingImpl: a delivered batch lacks a row of the model's batch", impl(e3)[0], True)
+expect("TraceTumblingImpl: model without re-anchoring (Reanchor = FALSE) against the engine's replay", impl(ev, "Size = 2 MOO = 1 AL = 0 MaxTs = 99 MaxEv = 12 ChanCap = 100 Reanchor = FALSE Emit = FALSE Dev = {}")[0], True)
+
 # 2. counting batches (TraceBatch)
 aggs = [{"al": "c", "fn": "count_star", "arg": {"k": "star"}, "p": 0}, {"al": "s", "fn": "sum", "arg": {"k": "col", "c": "v"}, "p": 0}]
 sc = {"tr": 1, "meta": {"fam": "batch", "carrier": "counting", "n": 2, "gcols": ["g"], "gout": ["g"], "aggs": aggs},
